@@ -145,7 +145,43 @@ def c_poly_index(ctx, args):
     return None
 
 
-CHECKS = {'poly_index': c_poly_index, 'roundtrip': c_roundtrip, 'parse_corr': c_parse_corr, 'formats': c_formats, 'index': c_index}
+def c_repr_objects(ctx, args):
+    """printing lists, maps and states shows every row as its operator: parsing the printed rows back gives the rows (list order for lists, X_j / Z_j images for maps,
+    the active stabilizers for states); the printed coefficients of a polynomial are its coefficients with the phases folded in"""
+    be, kind, n, seed = args
+    rng = __import__('random').Random(seed)
+    if be == 'np':
+        import pyclifford as lib, vlib.impl_np as M
+    else:
+        import torchclifford as lib, vlib.impl_torch as M
+    import re as _re
+    parse = lambda txt: M.oP(lib.pauli(txt.strip()))
+    if kind == 'list':
+        l = gen.rplist(rng, n, rng.randint(1, 6))
+        lines = repr(M.PL(l)).split('\n')
+        got = [parse(x) for x in lines]
+        want = l
+    elif kind == 'map':
+        m = gen.rmap(rng, ctx.model, n)
+        lines = repr(M.CM(m)).split('\n')[1:]
+        got = [parse(x.split('->')[1].rstrip(')')) for x in lines]
+        heads = [x.split('->')[0].strip() for x in lines]
+        if heads != [c + str(j) for j in range(n) for c in 'XZ']:
+            return {'kind': 'oracle', 'where': be + ':repr(CliffordMap) row labels', 'observed': heads, 'expected': 'X0 Z0 X1 Z1 ...'}
+        want = m
+    else:
+        t = gen.rtableau(rng, ctx.model, n)
+        txt = repr(M.STATE(t))
+        lines = [x for x in txt.split('\n')[1:]]
+        got = [parse(x.rstrip(')')) for x in lines if x.strip(' )')]
+        want = t[0][t[1]:n]
+    want = [[g, p % 4] for g, p in want]
+    if got != want:
+        return {'kind': 'oracle', 'where': '%s:parsing the rows printed by repr(%s) does not give the rows' % (be, kind), 'observed': got, 'expected': want, 'tags': ['repr_objects', be, kind]}
+    return None
+
+
+CHECKS = {'repr_objects': c_repr_objects, 'poly_index': c_poly_index, 'roundtrip': c_roundtrip, 'parse_corr': c_parse_corr, 'formats': c_formats, 'index': c_index}
 
 
 def run(ctx):
@@ -207,3 +243,5 @@ def run(ctx):
         ix = {'slice': [rng.choice([None, 0, 1, -1, -2]), rng.choice([None, 1, 2, L, -1]), rng.choice([None, 1, 2])], 'mask': [rng.randint(0, 1) for _ in range(L)],
               'idx': [rng.randrange(L) for _ in range(rng.randint(1, 3))], 'int': rng.randrange(L)}[kind]
         do(ctx, 'poly_index', [be, terms, kind, ix], nontrivial=(be, 'pi', kind, str(terms), str(ix)))
+    for _ in range(int(90 * B)):
+        do(ctx, 'repr_objects', [rng.choice(['np', 'np', 'torch']), rng.choice(['list', 'map', 'state']), rng.randint(1, 4), rng.randrange(10 ** 6)], nontrivial=('ro', ctx.res.evaluations))
